@@ -14,7 +14,8 @@ FUNCTIONS = ['hotxlfp.helper.cell:row_label_to_index', 'hotxlfp.helper.cell:row_
 RULE = ('column labels: all of length<=2 (quick) / all 475254 of length<=4 in both cases (thorough) plus seeded '
         'longer ones; column indices 0..N and seeded large; rows 1..1048576 sampled and beyond; labels in all four '
         '$ patterns and both cases; seeded non-label strings (wrong order, empty parts, junk, unicode, trailing '
-        'newline). A case is non-trivial when the implementation returns something other than -1/empty/[] .')
+        'newline); labels decomposed after the evaluator (hotxlfp.Parser) has used them as corners of ranges written in '
+        'either order and as single references. A case is non-trivial when the implementation returns something other than -1/empty/[] .')
 TRUSTED = ['CPython str.upper/str.find/int()/str() on ASCII (modelled by hand in Model/Cell.lean)',
            'the regular expression engine `re` for LABEL_EXTRACT_REGEXP (matcher written by hand for the generated pattern; '
            'Props/C19.regexp_is_the_modelled_one pins the pattern text)']
@@ -29,6 +30,21 @@ def _cell():
     common.load_repo()
     from hotxlfp.helper import cell
     return cell
+
+
+_PARSER = []
+
+
+def _parser():
+    """a hotxlfp.Parser with grid listeners (the evaluator's use of the label functions)"""
+    if not _PARSER:
+        common.load_repo()
+        import hotxlfp
+        p = hotxlfp.Parser()
+        p.on('callCellValue', lambda label, row, col, done: done(1))
+        p.on('callRangeValue', lambda start, end, done: done([[1, 2], [3, 4]]))
+        _PARSER.append(p)
+    return _PARSER[0]
 
 
 # independent reference: bijective base-26 in shortlex order
@@ -128,6 +144,23 @@ def cases(rng, ctx):
         out.append({'kind': 'label', 's': ca + col + ra + row})
     for s in ['A1', '$A1', 'A$1', '$A$1', 'xfd1048576', '$xfd$1048576', 'zz99', 'A0', 'A01', 'A00', '$a$007']:
         out.append({'kind': 'label', 's': s})
+    # the same decomposition after the evaluator has used the label: the corner of a range written in either order
+    # (call_range_value decomposes, reorders and recomposes the corners), a single-cell reference, other spellings
+    for _ in range(400 * scale * (5 if thorough else 1)):
+        def lab():
+            n = rng.choice([1, 1, 2, 3])
+            col = ''.join(rng.choice('ABCDXYZ') for _ in range(n))
+            row = str(rng.choice([rng.randrange(1, 30), rng.randrange(1, 1048577)]))
+            return rng.choice(['', '$']) + col + rng.choice(['', '$']) + row
+        a, b = lab(), lab()
+        sp = lambda x: x if rng.random() < 0.6 else x.lower()
+        pre = []
+        for _k in range(rng.randrange(1, 4)):
+            x, y = rng.choice([(a, b), (b, a)])
+            pre.append(rng.choice(['SUM(%s:%s)', '%s:%s', 'SUM(%s:%s)+%s']) .replace('+%s', '+' + sp(a)) % (sp(x), sp(y)))
+        out.append({'kind': 'label', 's': sp(rng.choice([a, b])), 'pre': pre})
+    out.append({'kind': 'label', 's': '$B$9', 'pre': ['SUM(D$3:$B$9)']})
+    out.append({'kind': 'label', 's': 'A2', 'pre': ['SUM(C7:A2)', 'C7']})
     # non-labels
     junk_alphabet = 'Aa1$ -_.:\n\t١éА'
     for _ in range(800 * scale):
@@ -172,6 +205,10 @@ def impl(c):
     if k == 'rowlabel':
         return str(cell.row_label_to_index(c['s']))
     if k == 'label':
+        if c.get('pre'):
+            p = _parser()
+            for f in c['pre']:
+                p.parse(f)
         r = cell.extract_label(c['s'])
         if r == []:
             return 'none'
